@@ -245,4 +245,10 @@ example : (Example.doc.defs.all (defOKW Example.S (fragTypesOf Example.doc.defs)
 example : defOKW Example.S [] (.op .query (some Example.Q)
     [.field none Example.u [.field none n_typename [], .field (some [116, 121, 112, 101, 110, 97, 109, 101, 95, 95]) n_typename []]]) = false := by decide
 
+/-- `..._` (a fragment named `_`) and `... on _` (a type named `_`) are outside `defOKW`: the holder would
+    be Go's blank identifier (finding F-20l). `startsWithLetter` also excludes names like `_F`, which the
+    tool handles (unexported holders); the harness runs those (corpus `scope-underscore-and-digit-names`). -/
+example : selOKW Example.S [([95], Example.A)] (.union Example.U [Example.A, Example.B]) (.spread [95]) = false := by decide
+example : selOKW Example.S [] (.union Example.U [Example.A, Example.B]) (.inline (some [95]) []) = false := by decide
+
 end ApiFu.C20
